@@ -1,5 +1,5 @@
 (* C01, tolerance: "the nearest label is used if and only if it lies within the tolerance".
-   locate_one_tol = np.argmin(np.abs(values - val)) followed by the tolerance test. *)
+   locate_one_tol = np.argmin(np.abs(values - val)) followed by the tolerance test (IndexError on an empty axis). *)
 From Coq Require Import Qabs.
 From DA Require Import Prelude NDArray Array PyRT.
 From DA.Model Require Import Value Reshape SliceSpec Indexing.
@@ -55,14 +55,13 @@ Qed.
 (* distances of the labels to the requested value *)
 Definition dists (qs : list Q) (qv : Q) : list Q := map (fun q => Qabs (q - qv)) qs.
 
-(* the full statement: on a non-empty numeric axis, with a numeric request and a tolerance t,
+(* the full statement: on a numeric axis (possibly empty), with a numeric request and a tolerance t,
    - a position is returned iff some label lies within t of the request, and then it is the position of a NEAREST
      label (the first of them in stored order), which itself lies within t;
    - otherwise IndexError, and then every label is farther than t *)
 Theorem locate_one_tol_spec ls qs v qv t :
   label_num v = Some qv ->
   mapM (fun x => match label_num x with Some q => Ok q | None => Err TypeError end) ls = Ok qs ->
-  qs <> [] ->
   (exists m, locate_one_tol ls v (TolQ t) = Ok m /\ m < List.length qs /\
              (nth m (dists qs qv) 0 <= t)%Q /\
              (forall j, j < List.length qs -> (nth m (dists qs qv) 0 <= nth j (dists qs qv) 0)%Q) /\
@@ -70,9 +69,9 @@ Theorem locate_one_tol_spec ls qs v qv t :
   \/ (locate_one_tol ls v (TolQ t) = Err IndexError /\
       forall j, j < List.length qs -> (t < nth j (dists qs qv) 0)%Q).
 Proof.
-  intros Hv Hls Hne. unfold locate_one_tol. rewrite Hv, Hls. fold (dists qs qv).
+  intros Hv Hls. unfold locate_one_tol. rewrite Hv, Hls. fold (dists qs qv).
   destruct (dists qs qv) as [|d0 t0] eqn:Ed.
-  - destruct qs; [contradiction | discriminate].
+  - right. split; [reflexivity|]. destruct qs; [simpl; intros j Hj; lia | discriminate].
   - assert (Hlen : List.length (d0 :: t0) = List.length qs) by (rewrite <- Ed; unfold dists; apply map_length).
     destruct (argmin_first d0 t0) as [Hm [Hmin Hfirst]]. set (m := argmin_q t0 1 0 d0) in *.
     destruct (Qle_bool (nth m (d0 :: t0) 0%Q) t) eqn:E; cbn [negb].
